@@ -506,8 +506,71 @@ pub fn run(prop: &str) -> Report {
     if c != usize::MAX {
         rep.caps_hit.push(format!("wall cap {} s: work items up to #{} of {} fully covered (enumeration order, simplest first)", cap, c, items.len()));
     }
+    concurrent_siblings(&mut rep, &root, prop, &hist);
     let _ = std::fs::remove_dir_all(&root);
     rep
+}
+
+/// The three file-producing callbacks run at the same time on one dump folder (three processes), held at a barrier until all
+/// of them have written everything and none has renamed anything: each result must be what the callback writes when it runs
+/// alone. (Two runs of the SAME callback in one folder clash by design and are not part of this.)
+fn concurrent_siblings(rep: &mut Report, root: &std::path::Path, prop: &str, hist: &[History]) {
+    let btc = coin("bitcoin");
+    let picks: Vec<&History> = hist.iter().filter(|h| h.txs.len() == 2).step_by(97).take(6).collect();
+    for (k, h) in picks.into_iter().enumerate() {
+        let cb = match build(btc, h) {
+            Some(c) => c,
+            None => continue,
+        };
+        let wk = Worker::new(root, 700 + k);
+        let world = World::simple(btc, &cb.blocks, 0);
+        if let Err(m) = wk.materialise(&world) {
+            return rep.machinery(m);
+        }
+        wk.fresh_dump();
+        let barrier = wk.dir.join("barrier");
+        let _ = std::fs::remove_dir_all(&barrier);
+        std::fs::create_dir_all(&barrier).unwrap();
+        let results: Vec<(String, refmodel::run::RunResult)> = std::thread::scope(|s| {
+            let hs: Vec<_> = ["csvdump", "unspentcsvdump", "balances"]
+                .into_iter()
+                .map(|cbn| {
+                    let (wk, barrier) = (&wk, &barrier);
+                    s.spawn(move || {
+                        let mut spec = RunSpec::new("bitcoin", cbn);
+                        spec.env.push(("FAULTFS_DIR".into(), wk.dump().display().to_string()));
+                        spec.env.push(("VERIF_BARRIER".into(), format!("{}:3", barrier.display())));
+                        // each process reads its own copy of the data directory (LevelDB takes an exclusive lock while the
+                        // index is loaded); the dump folder is the shared one
+                        let data = wk.dir.join(format!("data-{}", cbn));
+                        let _ = std::fs::remove_dir_all(&data);
+                        refmodel::world::copy_dir(&wk.data(), &data).unwrap();
+                        (cbn.to_string(), refmodel::run::run_bin(&wk.bin, &data, &wk.dump(), &spec))
+                    })
+                })
+                .collect();
+            hs.into_iter().map(|h| h.join().unwrap()).collect()
+        });
+        let files = refmodel::run::read_dir_files(&wk.dump());
+        let all = cb.mblocks();
+        let tip = all.len() as u64 - 1;
+        rep.states += 1;
+        rep.transitions += 3;
+        rep.count("concurrent-sibling-callbacks-in-one-dump-folder", 1);
+        rep.nontrivial.insert(h8(format!("siblings{:?}", h).as_bytes()));
+        for (cbn, mut r) in results {
+            r.files = files.iter().filter(|(n, _)| match cbn.as_str() { "csvdump" => !n.starts_with("unspent") && !n.starts_with("balances"), "unspentcsvdump" => n.starts_with("unspent"), _ => n.starts_with("balances") }).map(|(n, c)| (n.clone(), c.clone())).collect();
+            let bad = match (prop, cbn.as_str()) {
+                ("C07", "unspentcsvdump") => check_unspent(&r, btc, &all, 0, tip),
+                ("C08", "balances") => check_balances(&r, btc, &all, 0, tip),
+                _ => expect_success(&r),
+            };
+            if let Some((sig, detail)) = bad.into_iter().next() {
+                rep.disagree(&format!("concurrent-siblings:{}:{}", cbn, sig), format!("{:?}: {} while csvdump, unspentcsvdump and balances shared the dump folder: {}", h, cbn, detail.chars().take(400).collect::<String>()), json!({"kind": "e1-described", "history": format!("{:?}", h), "callbacks": ["csvdump", "unspentcsvdump", "balances"]}));
+                break;
+            }
+        }
+    }
 }
 
 fn judge_history(prop: &str, c08: bool, wk: &Worker, cn: &'static Coin, h: &History, start: Option<u64>, acc: &mut Report) {
